@@ -101,6 +101,34 @@ func genC16(c *Ctx) {
 		c.stats.Exhaustive = true
 		c.stats.ExhaustiveWhat = "all selectors made of ≤ 3 pieces of a 31-piece core alphabet (quotes, brackets, url(, braces, newlines, comment start, …), styles cycling"
 	}
+	// every bracket word over ( ) [ ] up to length 4 (quick) / 7 (thorough): balanced by count but interleaved etc.
+	var words func(prefix string, n int)
+	words = func(prefix string, n int) {
+		do(prefix, 0, "brackets")
+		do("a"+prefix, 1, "brackets")
+		if n == 0 {
+			return
+		}
+		for _, b := range []string{"(", ")", "[", "]"} {
+			words(prefix+b, n-1)
+		}
+	}
+	words("", c.n(4, 7))
+	// a quote followed by each CSS newline (LF, FF, CR, CRLF) before the closing quote: a tokenizer ends the string as
+	// a bad-string at the newline, so what follows is outside any string
+	for _, q := range []string{"\"", "'"} {
+		for _, nl := range []string{"\n", "\f", "\r", "\r\n", "\\\n", "\\\f"} {
+			for _, payload := range []string{"]{}input[value^=a]{background:url(//evil/a)}z[b=", "]{}*{x:y}z[b=", "){}a{}:not(", ","} {
+				for _, open := range []string{"[a=", ":not(", ""} {
+					for si := 0; si < 2; si++ {
+						do(open+q+nl+payload+q+"]", si, "string-newline")
+						do(open+q+"x"+nl+payload+q+")", si, "string-newline")
+						do(open+q+nl+payload+q, si, "string-newline")
+					}
+				}
+			}
+		}
+	}
 	// seeded grammar
 	for i := 0; i < c.n(6000, 120000); i++ {
 		k := 1 + c.rng.Intn(7)
